@@ -4,11 +4,12 @@
    * every fallible function returns `R A`:  Ok a st | SyntaxErr msgclass st | Panic site | OutOfFuel  (st on an error = the state the Rust
      object is left in; a panic unwinds through the visitor that owns the validator, so no state survives it).
      One msgclass per distinct error string of validator.rs (E_* below).  Panic sites: the source line of the
-     `unwrap()` (1050, 1051, 965, 970) and 100 = i64 overflow in `10*v+d` / `16*v+d` (debug builds only; the
-     release build wraps, modelled by `wrap64`).  `debug_build` selects between the two.
+     two `char::from_u32(..).unwrap()` (965, 970); ValidatorTotal.v shows they are unreachable.  The digit
+     accumulators saturate (`saturating_mul(..).saturating_add(..)`, same in debug and release builds), so
+     there is no arithmetic panic site and no build-profile switch.
    * loops are fuelled; the fuel handed out by the callers is shown sufficient in ValidatorTotal.v.
-   * the model is of the code as it is (e.g. `cp.unwrap()` at end of input, DecimalEscape accepting a leading 0,
-     `end` = chars().count()).  No proofs in this file. *)
+   * the model is of the code as it is (e.g. DecimalEscape accepting a leading 0, `end` = chars().count(),
+     `[^` not treated as negation).  No proofs in this file. *)
 From Coq Require Import List NArith ZArith Bool.
 From RecordUpdate Require Import RecordSet.
 From V Require Import Common.Str Regex.Reader Gen.UnicodeProps.
@@ -59,9 +60,6 @@ Definition E_gname := 18.        (* "Invalid capture group name" *)
 Definition E_uni := 19.          (* "Invalid unicode escape" *)
 
 (* panic sites *)
-Definition P_overflow := 100.    (* debug build: attempt to multiply/add with overflow *)
-Definition P_cp_unwrap := 1050.  (* validator.rs:1050 cp.unwrap() *)
-Definition P_cp1_unwrap := 1051. (* validator.rs:1051 cp1.unwrap() *)
 Definition P_from_u32_start := 965. (* validator.rs:964-965 char::from_u32(..).unwrap() *)
 Definition P_from_u32_part := 970.  (* validator.rs:970 *)
 
@@ -119,24 +117,21 @@ Definition u32_of (z : Z) : N := Z.to_N (z mod 4294967296).
 Definition is_prop_name_char (c : N) := is_alpha c || (c =? c_us).
 Definition is_prop_value_char (c : N) := is_prop_name_char c || is_digit c.
 
-(* i64 arithmetic of the digit accumulators *)
-Definition wrap64 (z : Z) : Z :=
-  ((z + 9223372036854775808) mod 18446744073709551616 - 9223372036854775808)%Z.
+(* i64 arithmetic of the digit accumulators: last_int_value.saturating_mul(radix).saturating_add(digit) *)
 Definition i64max : Z := 9223372036854775807%Z.
-
-Section Build.
-Variable debug_build : bool.
+Definition i64min : Z := (-9223372036854775808)%Z.
+Definition sat64 (z : Z) : Z := Z.max i64min (Z.min i64max z).
+Definition sat_mul_add (radix v d : Z) : Z := sat64 (sat64 (radix * v) + d).
 
 (* ---- digit eaters ---- *)
-(* while let Some(cp) = cp(0) { if !digit { break } liv = radix*liv + digit; advance } *)
+(* while let Some(cp) = cp(0) { if !digit { break } liv = liv.saturating_mul(radix).saturating_add(digit); advance } *)
 Fixpoint digits_loop (f : nat) (radix16 : bool) (s : vst) : R unit :=
   match f with O => OutOfFuel | S f =>
   match cp 0 s with
   | Some c =>
       if (if radix16 then is_hex c else is_digit c) then
-        let z := (if radix16 then 16 * liv s + hexval c else 10 * liv s + digval c)%Z in
-        if debug_build && negb (Z.eqb (wrap64 z) z) then Panic P_overflow
-        else digits_loop f radix16 (advance (s <| liv := wrap64 z |>))
+        let z := (if radix16 then sat_mul_add 16 (liv s) (hexval c) else sat_mul_add 10 (liv s) (digval c)) in
+        digits_loop f radix16 (advance (s <| liv := z |>))
       else Ok tt s
   | None => Ok tt s end end.
 Definition eat_decimal_digits (s : vst) : R bool :=
@@ -370,12 +365,13 @@ Definition eat_rx_id_part (s : vst) : R bool :=
     (let* (b, s2) := (if is c_bs c0 then eat_unicode_escape force_u s1 else Ok false s1) in
      if b then Ok (Some (u32_of (liv s2))) s2
      else if force_u then
+       (* cp.is_some_and(lead) && cp1.is_some_and(trail) *)
        match c0 with
-       | None => Panic P_cp_unwrap
+       | None => Ok c0 s2
        | Some l =>
           if is_lead (Z.of_N l) then
             match cp1 with
-            | None => Panic P_cp1_unwrap
+            | None => Ok c0 s2
             | Some t => if is_trail (Z.of_N t) then Ok (Some (u32_of (combine (Z.of_N l) (Z.of_N t)))) (advance s2)
                         else Ok c0 s2
             end
@@ -653,4 +649,3 @@ Definition validate_pattern (s0 : vst) (src : str) (u : bool) : R unit :=
     consume_pattern (rewind 0 (s1 <| nflag := true |>))
   else Ok tt s1.
 
-End Build.
